@@ -317,6 +317,19 @@ def probe_sig(ctx, payload):
     ctx.sample(dict(kind="sig", public_operations=base, rate_signature=_sig(Ms[MODEL_NAMES[0]].rate)))
 
 
+class _Any:
+    def __eq__(self, other):
+        return True
+
+    def __ne__(self, other):
+        return False
+
+    __hash__ = None
+
+
+_ANY = _Any()
+
+
 def probe_rclass(ctx, payload):
     Ms = models()
     vals = payload["vals"]
@@ -334,6 +347,9 @@ def probe_rclass(ctx, payload):
                         pat.append(type(e).__name__)
                 pat.append(hash(a) == hash(b) if a is not b else "self")
         for a in rs:
+            # an operand whose own __eq__ matches everything (unittest.mock.ANY, a wildcard): whether the rating answers
+            # NotImplemented (Python then asks the other side) or False is part of the comparison rules the copies share
+            pat += [bool(a == _ANY), bool(_ANY == a), bool(a != _ANY), a in [_ANY], [_ANY].count(a)]
             for other in (5, "x", None, (1, 2)):
                 for fn in (operator.lt, operator.ge, operator.eq):
                     try:
